@@ -385,4 +385,85 @@ def runSeq {P M : Type} (gen : P → M → M) : M → List P → List M
   | _, [] => []
   | m, p :: ps => let m' := gen p m; m' :: runSeq gen m' ps
 
+/-! ## Workspace bookkeeping of `contact_manifolds_composite_shape_shape`
+
+The narrow phase is a parameter (`narrow leaf manifold`, any function); the broad phase is a parameter too:
+each call receives the list of leaves the QBVH traversal visits.  `α` is everything a manifold carries besides
+its labels (points, normals, user data), `β` the type of part poses. -/
+
+/-- the label fields of a `ContactManifold` + the rest -/
+structure WManifold (α β : Type) where
+  subshape1 : Nat
+  subshape2 : Nat
+  pos1 : Option β
+  pos2 : Option β
+  data : α
+
+/-- `SubDetector { manifold_id, timestamp }` -/
+structure SubDetector where
+  manifoldId : Nat
+  timestamp : Bool
+
+/-- `CompositeShapeShapeContactManifoldsWorkspace`; the `HashMap<u32, SubDetector>` is a finite partial map -/
+structure Workspace where
+  timestamp : Bool
+  sub : Nat → Option SubDetector
+
+/-- `CompositeShapeShapeContactManifoldsWorkspace::new()` -/
+def Workspace.new : Workspace := ⟨false, fun _ => none⟩
+
+/-- the `Entry::Vacant` manifold: `ContactManifold::new()` + labels (`part_pos1.copied()`) -/
+def freshManifold {α β : Type} (flipped : Bool) (dflt : α) (partPos : Nat → Option β) (leaf : Nat) : WManifold α β :=
+  if flipped then ⟨0, leaf, none, partPos leaf, dflt⟩ else ⟨leaf, 0, partPos leaf, none, dflt⟩
+
+/-- state of the traversal callback: the map, `old_manifolds`, the new `manifolds` -/
+structure LoopSt (α β : Type) where
+  sub : Nat → Option SubDetector
+  old : List (WManifold α β)
+  new : List (WManifold α β)
+
+/-- one call of `leaf1_fn`.  `none` = the `old_manifolds[sub_detector.manifold_id]` index panics.
+`clr` is what `take()` leaves behind in `old_manifolds` (points removed). -/
+def visitLeaf {α β : Type} (narrow : Nat → WManifold α β → WManifold α β) (clr : α → α)
+    (fresh : Nat → WManifold α β) (newTs : Bool) (st : LoopSt α β) (leaf : Nat) : Option (LoopSt α β) :=
+  match st.sub leaf with
+  | some sd =>
+    match st.old[sd.manifoldId]? with
+    | none => none
+    | some om =>
+      -- `take()`, `manifold_id = manifolds.len()`, `timestamp = new_timestamp`, `push`, then the narrow phase
+      -- on `manifolds[sub_detector.manifold_id]` (the slot just pushed)
+      some ⟨fun l => if l = leaf then some ⟨st.new.length, newTs⟩ else st.sub l,
+            st.old.set sd.manifoldId { om with data := clr om.data },
+            st.new ++ [narrow leaf om]⟩
+  | none =>
+    some ⟨fun l => if l = leaf then some ⟨st.new.length, newTs⟩ else st.sub l,
+          st.old,
+          st.new ++ [narrow leaf (fresh leaf)]⟩
+
+/-- `sub_detectors.retain(|_, d| d.timestamp == new_timestamp)` -/
+def retainTs (newTs : Bool) (sub : Nat → Option SubDetector) : Nat → Option SubDetector :=
+  fun l => match sub l with
+    | some sd => if sd.timestamp == newTs then some sd else none
+    | none => none
+
+/-- one call of `contact_manifolds_composite_shape_shape` on the leaves the traversal visits -/
+def compositeStep {α β : Type} (narrow : Nat → WManifold α β → WManifold α β) (clr : α → α)
+    (fresh : Nat → WManifold α β) (ws : Workspace) (ms : List (WManifold α β)) (leaves : List Nat) :
+    Option (Workspace × List (WManifold α β)) :=
+  let newTs := !ws.timestamp
+  match leaves.foldlM (visitLeaf narrow clr fresh newTs) ⟨ws.sub, ms, []⟩ with
+  | none => none
+  | some st => some (⟨newTs, retainTs newTs st.sub⟩, st.new)
+
+/-- a whole history: each call has its own narrow phase (the pose changes) and its own visited leaves -/
+def compositeRun {α β : Type} (clr : α → α) (fresh : Nat → WManifold α β) :
+    Workspace → List (WManifold α β) → List ((Nat → WManifold α β → WManifold α β) × List Nat) →
+      Option (Workspace × List (WManifold α β))
+  | ws, ms, [] => some (ws, ms)
+  | ws, ms, (narrow, leaves) :: rest =>
+    match compositeStep narrow clr fresh ws ms leaves with
+    | none => none
+    | some (ws', ms') => compositeRun clr fresh ws' ms' rest
+
 end C14
